@@ -4,6 +4,9 @@ From Coq Require Import List ZArith Bool Lia.
 Import ListNotations.
 Require Import Pyrefact.Ops PyrefactGen.Tables Pyrefact.BoundModel Pyrefact.BoolRwModel Pyrefact.BoundProofs.
 Require Import Pyrefact.RangeModel Pyrefact.RangeProofs.
+Require Import Pyrefact.BoundValueProofs Pyrefact.BoolEquivModel Pyrefact.BoolEquivProofs.
+Require Import Pyrefact.SumPolyModel Pyrefact.SumPolyProofs.
+From Coq Require Import QArith.
 Open Scope Z_scope.
 
 (* T17.1 the regenerated REVERSE_OPERATOR_MAPPING is total and maps every operator to its negation
@@ -147,3 +150,123 @@ Proof. vm_compute. reflexivity. Qed.
 Example T17_7b_example :
   fold_range [AInt (-1); AInt 89] [ROther 0; ROther 1; RCmp REq 89 false] = VEmpty.
 Proof. vm_compute. reflexivity. Qed.
+
+(* T17.3v the BoolOp branch after the value-context repair (7b8d685): a node is rewritten only where
+   just its truth value is used (ctx = true) or where it is boolean valued; in the first case the TRUTH
+   value is preserved, in the second the VALUE (Python's and/or evaluate to an operand; OVar i is any
+   expression with an arbitrary bool or integer value tau i) -- for every operand list, every integer
+   valuation and every tau. *)
+Theorem T17_3v_simplify_ctx_sound :
+  forall ctx isand vs rho tau,
+    match simplify_ctx ctx isand vs with
+    | RConst b =>
+        if ctx then truthy (opval rho tau (OBool isand vs)) = b
+        else opval rho tau (OBool isand vs) = VB b
+    | RValues vs' =>
+        if ctx then truthy (opval rho tau (OBool isand vs')) = truthy (opval rho tau (OBool isand vs))
+        else opval rho tau (OBool isand vs') = opval rho tau (OBool isand vs)
+    | RNone => True
+    end.
+Proof. exact simplify_ctx_sound. Qed.
+Print Assumptions T17_3v_simplify_ctx_sound.
+
+(* R17.3w the pre-repair rule (no guard) changes the value: `x and True` -> `x` for x = 2
+   (fixed: F17-10 / F15-6 / C01 F01-30). *)
+Theorem R17_3w_unguarded_value_refuted :
+  exists isand vs vs' rho tau,
+    simplify isand vs = RValues vs' /\ opval rho tau (OBool isand vs') <> opval rho tau (OBool isand vs).
+Proof. exact simplify_value_refuted. Qed.
+Print Assumptions R17_3w_unguarded_value_refuted.
+
+(* T17.11 the propositional checker used to validate every output of the sympy rule: it accepts a
+   pair exactly when the two formulas have the same truth value under every valuation of the atoms
+   (any atom type with a correct equality test). *)
+Theorem T17_11_equiv_dec_sound :
+  forall (A : Type) (aeqb : A -> A -> bool), (forall a b, aeqb a b = true <-> a = b) ->
+  forall f g : pform A, equiv_dec aeqb f g = true -> forall v, peval v f = peval v g.
+Proof. exact equiv_dec_sound. Qed.
+Print Assumptions T17_11_equiv_dec_sound.
+
+Theorem T17_11_equiv_dec_complete :
+  forall (A : Type) (aeqb : A -> A -> bool) (f g : pform A),
+    (forall v, peval v f = peval v g) -> equiv_dec aeqb f g = true.
+Proof. exact equiv_dec_complete. Qed.
+Print Assumptions T17_11_equiv_dec_complete.
+
+(* T17.11a representative points: conditions built from `x op c`, `c op x`, bare integer names and
+   opaque operands agree under ALL integer valuations as soon as they agree under the valuations that
+   send every variable to 0 or to c-1, c, c+1 for a constant c occurring in them. *)
+Theorem T17_11a_rep_points_suffice :
+  forall (f g : form) C,
+    incl (consts f ++ consts g) C ->
+    (forall rho sigma, (forall x, In (rho x) (points C)) -> teval rho sigma f = teval rho sigma g) ->
+    forall rho sigma, teval rho sigma f = teval rho sigma g.
+Proof. exact rep_points_suffice. Qed.
+Print Assumptions T17_11a_rep_points_suffice.
+
+(* T17.11b truth equivalence over the integers is decided by the finite grid *)
+Theorem T17_11b_equiv_dec_arith_sound :
+  forall f g : form, equiv_dec_arith f g = true -> forall rho sigma, teval rho sigma f = teval rho sigma g.
+Proof. exact equiv_dec_arith_sound. Qed.
+Print Assumptions T17_11b_equiv_dec_arith_sound.
+
+Theorem T17_11b_equiv_dec_arith_complete :
+  forall f g : form, (forall rho sigma, teval rho sigma f = teval rho sigma g) -> equiv_dec_arith f g = true.
+Proof. exact equiv_dec_arith_complete. Qed.
+Print Assumptions T17_11b_equiv_dec_arith_complete.
+
+(* T17.11c a pair accepted by the value checker has the same VALUE under every integer valuation *)
+Theorem T17_11c_vequiv_dec_sound :
+  forall f g : form, vequiv_dec f g = true -> forall rho sigma, veval rho sigma f = veval rho sigma g.
+Proof. exact vequiv_dec_sound. Qed.
+Print Assumptions T17_11c_vequiv_dec_sound.
+
+(* T17.11d without bare names among the operands truth equivalence IS value equivalence (this is the
+   situation in which the repaired sympy rule fires in a value context) *)
+Theorem T17_11d_names_free_truth_is_value :
+  forall f g : form,
+    names_free f = true -> names_free g = true -> equiv_dec_arith f g = true ->
+    forall rho sigma, veval rho sigma f = veval rho sigma g.
+Proof. exact names_free_truth_is_value. Qed.
+Print Assumptions T17_11d_names_free_truth_is_value.
+
+(* R17.12 `(a and b) or (a and not b)` -> `a` (what sympy returns): same truth value under every
+   valuation, different VALUE for a = 2, b = 3 (fixed: F17-11; the rule no longer fires where the
+   value is used). *)
+Theorem R17_12_truth_not_value :
+  (equiv_dec atom_eqb r1712_in r1712_out = true) /\
+  (vequiv_dec r1712_in r1712_out = false) /\
+  (exists rho sigma, veval rho sigma r1712_in <> veval rho sigma r1712_out).
+Proof. exact truth_not_value. Qed.
+Print Assumptions R17_12_truth_not_value.
+
+(* T17.9b sum(range(a, b)) after the repair of literal empty ranges (a46a07b): the emitted value is
+   right whenever a <= b or both bounds are literals; R17.10b: still refuted for symbolic bounds. *)
+Theorem T17_9b_sum_range_out_sound :
+  forall literal a b, (a <= b \/ literal = true)%Z -> (2 * sum_range a b = sum_range_out2 literal a b)%Z.
+Proof. exact sum_range_out_sound. Qed.
+Print Assumptions T17_9b_sum_range_out_sound.
+
+Theorem R17_10b_sum_range_symbolic_refuted :
+  exists a b, (b < a)%Z /\ (2 * sum_range a b <> sum_range_out2 false a b)%Z.
+Proof. exact sum_range_out_symbolic_refuted. Qed.
+Print Assumptions R17_10b_sum_range_symbolic_refuted.
+
+(* T17.13 the discrete fundamental theorem used to validate the closed forms sympy computes: F with
+   F (k + 1) = F k + f k sums f over range(a, b) to F b - F a for every a <= b; and its use: an emitted
+   closed form `out` for sum(elt for x in range(lo, hi)) is right at a valuation as soon as such an F
+   with F lo = 0 and F hi = out exists (the generated instance files prove the premises with `field`). *)
+Theorem T17_13_telescope :
+  forall (F f : Z -> Q), (forall k : Z, (F (k + 1)%Z == F k + f k)%Q) ->
+  forall a b, (a <= b)%Z -> (qsumf f (zrange a b 1) == F b - F a)%Q.
+Proof. exact telescope. Qed.
+Print Assumptions T17_13_telescope.
+
+Theorem T17_13_closed_form_valid :
+  forall x lo hi elt out rho a b (F : Z -> Q),
+    zeval rho lo = Some a -> zeval rho hi = Some b -> (a <= b)%Z ->
+    (forall k : Z, (F (k + 1)%Z == F k + aeval (upd rho x k) elt)%Q) ->
+    (F a == 0)%Q -> (F b == aeval rho out)%Q ->
+    exists v, comp_sum [GRange x lo hi (ANum 1)] rho elt = Some v /\ (v == aeval rho out)%Q.
+Proof. exact closed_form_valid. Qed.
+Print Assumptions T17_13_closed_form_valid.
